@@ -13,6 +13,14 @@ SVersions == {0, 1, 2, 3, 255}
 SDamages == {"cut1", "cuthalf", "count+1"}
 AllDamages == {"none", "cut1", "cuthalf", "count+1"}
 
+(* directed, exhaustive: every ordered list of up to three pairs over nested keys and values on both sides of the 32-byte *)
+(* threshold, in both state versions (a root is a function of the MAP: the order in which a key and its extensions are     *)
+(* listed, and which of them carries the long value, must not matter; seed C10d)                                            *)
+DKeys == { <<18>>, <<18, 1>>, <<18, 1, 5>> }
+DVals == { <<1>>, Rep(40, 3) }
+DLens == 0..3
+DVersions == {0, 1}
+
 MKeys == { <<16>>, <<16, 1>> }
 MVals == { <<1>>, Rep(33, 9) }
 MLens == 0..2
